@@ -212,7 +212,9 @@ fn check_path(c: &PathCase) -> Verdict {
             Step::Field(k) => ident_like(k),
             Step::At(_) => true,
         });
-    if textable {
+    // (parsing costs ~270 us: every third textable path also goes through text)
+    let text_sample = c.steps.len() % 3 == 0 || c.steps.iter().any(|s| matches!(s, Step::At(i) if *i > 3));
+    if textable && text_sample {
         let mut text = c.root.clone().unwrap_or_else(|| "facts".to_string());
         for s in &c.steps {
             match s {
